@@ -713,7 +713,55 @@ func ruleErrorFlow(r *Report, id, text string, floor int, fns []string, exceptio
 					bad = c
 				}
 			})
+			// an error that was looked at is not swallowed: on the edge where a call's error is non-nil
+			// the function does not return a constant nil error
+			var swallowed ssa.Instruction
+			if f.Signature.Results().Len() > 0 && isErrorType(f.Signature.Results().At(f.Signature.Results().Len()-1).Type()) {
+				for _, ret := range returnsOf(f) {
+					if len(ret.Results) == 0 {
+						continue
+					}
+					res := ret.Results[len(ret.Results)-1]
+					if ld, isLd := res.(*ssa.UnOp); isLd && ld.Op == token.MUL && len(ret.Results) == 1 {
+						// a function with deferred calls spills its result into a cell round rundefers
+						if vals := cellStoresBefore(ret); len(vals) == 1 {
+							res = vals[0]
+						}
+					}
+					if !isConstNil(res) {
+						continue
+					}
+					// directly on the non-nil edge of the test (a return under a further test of the error —
+					// `if err == io.EOF { return nil }` — is a decision, not a slip)
+					if len(ret.Block().Preds) != 1 {
+						continue
+					}
+					pred := ret.Block().Preds[0]
+					iff, isIf := pred.Instrs[len(pred.Instrs)-1].(*ssa.If)
+					if !isIf {
+						continue
+					}
+					x, nonNil, isN := nilTest(iff.Cond)
+					if !isN || !isErrorType(x.Type()) {
+						continue
+					}
+					if !dependsOn(x, func(z ssa.Value) bool { _, isCall := z.(*ssa.Call); return isCall }, 4) {
+						continue
+					}
+					onNonNil := (nonNil && pred.Succs[0] == ret.Block()) || (!nonNil && pred.Succs[1] == ret.Block())
+					if onNonNil && pred.Succs[0] != pred.Succs[1] {
+						swallowed = ret
+					}
+				}
+			}
+			if swallowed != nil {
+				n++
+			}
 			if n == 0 {
+				continue
+			}
+			if swallowed != nil {
+				h.Bad(fnName(f), r.P.InstrPos(swallowed), "an error that was tested is swallowed: on the edge where it is non-nil the function returns nil")
 				continue
 			}
 			if badDefer != nil {
